@@ -18,6 +18,9 @@ package main
 //                     any byte beyond end(k)+1 (or the end of the chunk holding
 //                     it) has been served
 //   nesting-limit     arrays nested 9 999 / 10 000 / 10 001 (thorough only)
+//   cli-incremental   the REAL BINARY reading a named pipe, /dev/stdin or a stdin pipe that
+//                     stays open: the output of the complete values of the first part must
+//                     be on stdout while the rest has not been sent yet
 
 import (
 	"bytes"
@@ -25,6 +28,7 @@ import (
 	"fmt"
 	"io"
 	"math/rand"
+	"os"
 	"strconv"
 	"strings"
 )
@@ -335,6 +339,158 @@ func c03NT(i Resp) bool {
 	return (i["class"] == "ok" || i["class"] == "json") && i["out"] != "-" && i["out"] != ""
 }
 
+// ---- cli-incremental ------------------------------------------------------------------
+
+var c03CliProgs = []string{
+	`{ print "v", $ }`,
+	"BEGINFILE { print \"B\" } { print \"v\", $ } ENDFILE { print \"E\" }",
+	"BEGIN { print \"start\" }\n{ print \"v\", $ }\nEND { print \"END\", 1 }",
+	"BEGIN { print \"start\" }\nBEGINFILE { n++; print \"B\", n }\nEND { print \"END\", n }",
+	"BEGINFILE { c = 0 } { c++ } ENDFILE { print \"count\", c }",
+	"{ print $ } END { print \"END reached\" }",
+}
+
+// c03StripEnd removes the lines an END rule printed ("END ...").
+func c03StripEnd(out string) string {
+	lines := strings.SplitAfter(out, "\n")
+	for len(lines) > 0 && (lines[len(lines)-1] == "" || strings.HasPrefix(lines[len(lines)-1], "END ")) {
+		lines = lines[:len(lines)-1]
+	}
+	return strings.Join(lines, "")
+}
+
+// c03InProcOut: the library's output for prog on the given inputs (run inside the generator).
+func c03InProcOut(prog string, files []File) (string, string) {
+	i := ParseResp(implAnswer(RunReq(prog, nil, files, false)))
+	return i["class"], string(i.Bytes("out"))
+}
+
+func c03CliIncremental(r *rand.Rand, tier string, emit func(Case)) {
+	if os.Getenv("JQAWK_BIN") == "" {
+		emit(Case{ID: "no-binary", Req: "cli - - - -", ImplOnly: true, Oracle: func(i Resp) string { return "JQAWK_BIN is not set: the binary was not run" },
+			Meta: map[string]string{"problem": "env JQAWK_BIN is not set; this family runs the real binary"}})
+		return
+	}
+	n := tierN(tier, 32, 300)
+	modes := []string{"fifo", "fifo", "stdin", "fifo", "devstdin", "fifo", "file-then-fifo", "stdin"}
+	finalFields := []string{"exit", "out", "err"}
+	for i := 0; i < n; i++ {
+		mode := modes[i%len(modes)]
+		prog := c03CliProgs[(i/len(modes))%len(c03CliProgs)]
+		if i >= len(modes)*len(c03CliProgs) {
+			prog = pick(r, c03CliProgs)
+		}
+		// a stream and a cut: `first` holds k complete values (and perhaps the beginning of the
+		// next one), `rest` the others -- sometimes faulty, so that the run ends in a JSON error
+		var data, first, rest []byte
+		var wantEarly string
+		var cutKind string
+		for try := 0; ; try++ {
+			data = c03Stream(r, 2+r.Intn(5), true)
+			ends, valid := c03Scan(data)
+			if !valid || len(ends) < 2 {
+				continue
+			}
+			k := r.Intn(len(ends)) // cut after value k (0-based)
+			cut := ends[k]
+			switch r.Intn(4) {
+			case 0:
+				cutKind = "right after the value"
+			case 1:
+				// one following byte (what a scalar needs to be complete)
+				if cut < len(data) {
+					cut++
+				}
+				cutKind = "one byte after the value"
+			case 2:
+				// into the next value
+				if k+1 < len(ends) {
+					cut = ends[k] + 1 + r.Intn(ends[k+1]-ends[k])
+					if cut > ends[k+1]-1 {
+						cut = ends[k+1] - 1
+					}
+				}
+				cutKind = "inside the next value"
+			default:
+				for cut < len(data) && strings.IndexByte(" \t\r\n", data[cut]) >= 0 {
+					cut++
+				}
+				cutKind = "after the white space that follows the value"
+			}
+			if (i%len(modes) == 5 && strings.Contains(prog, "BEGIN {")) || (mode == "file-then-fifo" && chance(r, 0.5)) {
+				cut, cutKind = 0, "nothing is sent before the wait"
+			}
+			first, rest = data[:cut], data[cut:]
+			if chance(r, 0.2) && len(rest) > 0 {
+				rest = c03Corrupt(r, rest)
+			}
+			files := []File{{Name: "in.fifo", Data: c03IOErrPrefix(first)}}
+			if mode == "file-then-fifo" {
+				files = []File{{Name: "first.json", Data: []byte("[10, 20]\n{\"a\": 1}\n")}, {Name: "in.fifo", Data: c03IOErrPrefix(first)}}
+			}
+			class, out := c03InProcOut(prog, files)
+			if class != "ok" {
+				continue
+			}
+			wantEarly = c03StripEnd(out)
+			if wantEarly != "" || try > 50 {
+				break
+			}
+		}
+		if wantEarly == "" {
+			continue
+		}
+		whole := append(append([]byte{}, first...), rest...)
+		g := fmt.Sprintf("inc-cli-%d", i)
+		var plainReq, stagedReq string
+		var argv []string
+		switch mode {
+		case "fifo":
+			argv = []string{prog, "in.fifo"}
+			plainReq = CliReq(argv, nil, false, []CliFile{{Name: "in.fifo", Data: whole}}, "")
+			stagedReq = CliStagedReq(argv, "fifo", nil, nil, []CliFile{{Name: "in.fifo", Fifo: true, Data: first, Rest: rest}}, len(wantEarly))
+		case "file-then-fifo":
+			argv = []string{prog, "first.json", "in.fifo"}
+			f1 := CliFile{Name: "first.json", Data: []byte("[10, 20]\n{\"a\": 1}\n")}
+			plainReq = CliReq(argv, nil, false, []CliFile{f1, {Name: "in.fifo", Data: whole}}, "")
+			stagedReq = CliStagedReq(argv, "fifo", nil, nil, []CliFile{f1, {Name: "in.fifo", Fifo: true, Data: first, Rest: rest}}, len(wantEarly))
+		case "stdin":
+			argv = []string{prog}
+			plainReq = CliReq(argv, whole, true, nil, "")
+			stagedReq = CliStagedReq(argv, "stdin", first, rest, nil, len(wantEarly))
+		case "devstdin":
+			// standard input given BY NAME: for the model a file of that name
+			argv = []string{prog, "/dev/stdin"}
+			plainReq = CliReq(argv, whole, true, nil, "")
+			stagedReq = CliStagedReq(argv, "stdin", first, rest, nil, len(wantEarly))
+		}
+		modelReq := plainReq
+		if mode == "devstdin" {
+			modelReq = CliReq(argv, nil, false, []CliFile{{Name: "/dev/stdin", Data: whole}}, "")
+		}
+		meta := func(what string) map[string]string {
+			return metaProg(prog, "argv", strings.Join(argv, " ␣ "), "input kind", mode, "first part", strconv.Quote(string(first)), "cut", cutKind, "rest", strconv.Quote(string(rest)),
+				"output expected before the rest is sent", strconv.Quote(wantEarly), "variant", what)
+		}
+		emit(Case{ID: g + "/plain", Req: plainReq, ModelReq: modelReq, Fields: finalFields, Group: g, Meta: meta("all bytes at once (regular file / stdin with EOF): reference of the group"),
+			NonTrivial: func(i Resp) bool { return i["exit"] != "" && i["out"] != "-" }})
+		want := wantEarly
+		emit(Case{ID: g + "/staged", Req: stagedReq, ModelReq: modelReq, Fields: finalFields, Group: g, GroupFields: []string{"exit", "out", "stderr"},
+			Meta:       meta("the first part, a pause until its output is there (at most 2.5 s), then the rest"),
+			NonTrivial: func(i Resp) bool { return i["early"] != "" && i["early"] != "-" },
+			Oracle: func(i Resp) string {
+				switch i["class"] {
+				case "badrequest", "crash", "garbled", "nobinary":
+					return "harness problem running the binary: " + i.String()
+				}
+				if got := string(i.Bytes("early")); got != want {
+					return fmt.Sprintf("while the input was still open and only %q had been sent, stdout held %q after %s ms; the complete values sent so far produce %q", first, got, i["earlyms"], want)
+				}
+				return ""
+			}})
+	}
+}
+
 func init() {
 	fields := []string{"class", "out", "file"}
 
@@ -604,6 +760,11 @@ func init() {
 				}
 			}
 		},
+	})
+	register(Family{
+		Name: "cli-incremental", Prop: "C03",
+		Rule: "the real binary with an input that is NOT a finished regular file: a named pipe given as a file argument (alone, and as second file after a regular one), /dev/stdin given by name, and a stdin pipe that stays open. The harness writes a first part of a valid stream (cut right after a value, one byte later, after the following white space, inside the next value, or nothing at all for BEGIN output), waits until stdout holds as many bytes as the complete values of that part must produce (library run in the generator on those values; END lines removed) or 2.5 s have passed, records stdout (`early`), then sends the rest (sometimes corrupted) and closes. Oracle: early = exactly that output; Group: final exit / stdout / stderr equal to the run on a plain file with all the bytes, which is compared with the model",
+		Gen:  c03CliIncremental,
 	})
 }
 
